@@ -110,7 +110,7 @@ static std::string fen4(const Position& p)
 
 // ---------------------------------------------------------------- game walks
 // policy: 0 uniform, 1 capture-biased, 2 shuffle (prefer undoing own last move: builds repetitions),
-//         3 quiet-biased (long reversible play), 4 promotion/ep/castle hungry
+//         3 quiet-biased (long reversible play), 4 promotion/ep/castle hungry, 5 mate/stalemate seeking
 static Move pick(Position& p, const MoveVec& mv, std::mt19937_64& rng, int policy, Move last_own)
 {
     auto rnd = [&](int n) { return int(rng() % uint64_t(n)); };
@@ -143,6 +143,20 @@ static Move pick(Position& p, const MoveVec& mv, std::mt19937_64& rng, int polic
                 (pawn && std::abs(int(to(c)) - int(from(c))) == 16 && rnd(2)))
                 if (rnd(3)) return c;
         }
+    if (policy == 5)   // end the game if it can be ended: mate first, then stalemate (generator only; no verdict relies on it)
+    {
+        for (int pass = 0; pass < 2; ++pass)
+            for (int i = 0; i < mv.n; ++i)
+            {
+                Move c = mv.list[i];
+                MoveInfo mi = p.do_move(c);
+                MoveVec r;
+                r.gen(p);
+                bool chk = p.is_in_check(p.color());
+                p.undo_move(c, mi);
+                if (r.n == 0 && (pass == 0 ? chk : !chk) && rnd(4)) return c;
+            }
+    }
     return mv.list[rnd(mv.n)];
 }
 
@@ -168,7 +182,7 @@ int cmd_games(const Args& a)
         const std::string root = a.i("roots-seq", 0) ? roots[g % roots.size()] : roots[rng() % roots.size()];
         Position p(root);
         out.put("{\"e\":\"reset\",\"fen\":" + jstr(p.fen()) + "}");
-        int policy = policy_opt >= 0 ? policy_opt : int(rng() % 5);
+        int policy = policy_opt >= 0 ? policy_opt : int(rng() % 6);
         std::map<std::string, int> seen;
         Move last_own[2] = {NO_MOVE, NO_MOVE};
         for (int ply = 0; ply <= maxply; ++ply)
